@@ -18,7 +18,7 @@ REQUIRED = ['siblings:mode==spec', 'ecb:enc==spec', 'cbc:enc==spec', 'ctr:enc==s
 NSHARDS = 14
 SAN = {'quick': (2, 50), 'thorough': (2, 50)}
 
-CIPH = ['aes128', 'aes192', 'aes256', 'des', 'tdea-s24', 'tdea-s16', 'serpent', 'tf256', 'tf512', 'tf1024']
+CIPH = ['aes128', 'aes192', 'aes256', 'des', 'tdea-s24', 'tdea-s16', 'tdea2', 'tdea3', 'serpent', 'tf256', 'tf512', 'tf1024']
 PADS = ['pkcs7', 'x923', 'bit', 'zero', 'none']
 
 def selftest():
@@ -107,7 +107,7 @@ def run(case, ctx, rng):
     import crysp.mode as MD
     k = case['k']
     K, T, n, E, mk = setup(case, rng)
-    M = rng.randbytes(case['nb'] * n + case['r'])
+    M = pattern(rng, case['nb'] * n + case['r'], ['rand', 'rand', 'zero', 'asc', 'rand', 'ones', 'x80'][(case['nb'] * 5 + case['r']) % 7])      # also messages made of equal blocks
     c = case['c']
     det = dict(mode=k, cipher=c, K=K, T=T, M=M)
     if k in ('ecb', 'cbc'):
@@ -129,6 +129,21 @@ def run(case, ctx, rng):
             # the same object decrypts what it encrypted (zero padding is removable by the same object only)
             ctx.eq(k + ':dec(enc)==M', call(lambda: obj.dec(C)), M, same_object=True, **det)
             ctx.eq(k + ':enc==spec', call(lambda: obj.enc(M)), want, second_call=True, **det)
+            # one object, unrelated messages: after encrypting M it decrypts the ciphertext of a message of another length
+            # (Nullpadding is removable only by the object that added it, so it is left out)
+            if pad != 'zero':
+                M2 = rng.randbytes(n * rng.choice([1, 2])) if pad == 'none' else rng.randbytes(rng.choice([0, 1, n - 1, n, n + 1, 2 * n + 3]))
+                P2 = padspec.spec(pad, 8 * n, bits_msb(M2, 8 * len(M2)))[0]
+                C2 = spec_ecb(E, P2, n) if k == 'ecb' else spec_cbc(E, iv, P2, n)
+                ctx.eq(k + ':dec(enc)==M', call(lambda: obj.dec(C2)), M2, cross_use='enc(M), then dec of another message', M2=M2, **det)
+                ctx.eq(k + ':enc==spec', call(lambda: obj.enc(M2)), C2, cross_use='third message on the same object', M2=M2, **det)
+            # caller-owned mutable buffers: the library neither changes them nor is confused by getting a bytearray
+            ivb = bytearray(iv); Mb = bytearray(M)
+            ob = call(lambda: MD.ECB(mk(), padclass(pad)) if k == 'ecb' else MD.CBC(mk(), ivb, padclass(pad)))
+            if not is_exc(ob):
+                ctx.eq(k + ':enc==spec', call(lambda: bytes(ob.enc(Mb))), want, buffers='bytearray IV and message', **det)
+                ctx.eq(k + ':enc==spec', call(lambda: bytes(ob.enc(Mb))), want, buffers='bytearray IV and message', second_call=True, **det)
+                ctx.eq(k + ':enc==spec', (bytes(ivb), bytes(Mb)), (iv, M), buffers='caller buffers left unchanged', **det)
     elif k == 'ctr':
         cc, how = case['cc'], case['how']
         ctx.cls((k, c, cc, how, case['r'], case['nb']))
